@@ -232,7 +232,7 @@ Proof. intros H1 H2 P. split; [exact P|]. split; [now apply seq_leaf|now apply c
 
 Lemma clean_of x : fail_clean G C x = true -> fails_clean cfg Ev (vx x).
 Proof.
-  intros Hc s s' a W I L [_ [f Ef]].
+  intros Hc s s' a W I L _ [_ [f Ef]].
   destruct (vm_clean cfg G ur C HC f true x (fun _ => Hc) f s s' a (le_n _) W I L Ef) as (A1 & A2 & A3).
   split; [exact A1|]. split; [|apply A3; reflexivity].
   rewrite <- (untagq_length (queue s')), <- (untagq_length (queue s)), A2. reflexivity.
